@@ -112,7 +112,8 @@ class SymRead:
 
     @property
     def qual(self):
-        return "5555"
+        # base quality 0 ('!') or 20 ('5') at each variant site: the merge must not depend on it
+        return "55" + "".join("!5"[int(self._i("q%d" % j, 0, 1))] for j in range(self.ns))
 
 
 def _vars(i, mismatch):
@@ -123,6 +124,7 @@ def _vars(i, mismatch):
     for j in range(2):
         d["al%d" % j] = z3.Bool(n + "al%d" % j)
         d["b%d" % j] = z3.Int(n + "b%d" % j)
+        d["q%d" % j] = z3.Int(n + "q%d" % j)
         d["mm%d" % j] = z3.Bool(n + "mm%d" % j) if mismatch else z3.BoolVal(False)
     return d
 
@@ -135,7 +137,7 @@ def _domain(k, mismatch):
         if SMALL["on"]:
             cs += [v["rg"] != 1]
         for j in range(2):
-            cs += [v["b%d" % j] >= 0, v["b%d" % j] <= (1 if SMALL["on"] else 2)]
+            cs += [v["b%d" % j] >= 0, v["b%d" % j] <= (1 if SMALL["on"] else 2), v["q%d" % j] >= 0, v["q%d" % j] <= 1]
     return cs
 
 
@@ -343,6 +345,7 @@ def _write_sam(path, k, m, mismatch, ns=2):
         al = [bool(g("al0", False)), bool(g("al1", False)) and ns > 1]
         # reference positions 100..106 (0-based); variant sites 102 and 105; read covers 100-101 always
         seq = "TG"
+        qs = "55"
         cigar = "2M"
         pos = 102
         for j, site in enumerate((102, 105)):
@@ -352,6 +355,7 @@ def _write_sam(path, k, m, mismatch, ns=2):
                     cigar += "%dN" % gap
                 cigar += "1M"
                 seq += BASES[int(g("b%d" % j, 0))]
+                qs += "!5"[int(g("q%d" % j, 1))]
             else:
                 cigar += "%dN" % (gap + 1)
             pos = site + 1
@@ -360,7 +364,7 @@ def _write_sam(path, k, m, mismatch, ns=2):
         if cigar.endswith("N"):
             cigar = cigar[: cigar.rfind("M") + 1]
         mapq = int(g("mapq", 0)) * 10
-        lines.append("\t".join(["q%d" % int(g("qn", 0)), str(flag), "chr1", "101", str(mapq), cigar, "*", "0", "0", seq, "5" * len(seq), "RG:Z:rg%d" % int(g("rg", 0))]))
+        lines.append("\t".join(["q%d" % int(g("qn", 0)), str(flag), "chr1", "101", str(mapq), cigar, "*", "0", "0", seq, qs, "RG:Z:rg%d" % int(g("rg", 0))]))
     open(path, "w").write(hdr + "\n".join(lines) + "\n")
 
 
